@@ -9,6 +9,7 @@ word; the model lower-cases bytewise.
 -/
 import GluonModel.Model.Parse.Prim
 import GluonModel.Model.Parse.Ast
+import GluonModel.Generated.Facts.Parse
 
 namespace Gluon.Parse
 
@@ -507,10 +508,31 @@ def parseSearchKeyList (recKey : P SearchKey) (fuel : Nat) : P SearchKey := do
   consume .rparen
   pure (.list (SearchKeys.ofList (k :: r)))
 
-/-- `parseSearchKey`: the first argument is the recursion budget (Go: unbounded stack depth, #18),
-the second the loop fuel. -/
+/-- the shape of the depth bookkeeping the model was written against (`Generated/Facts/Parse.lean`): the test
+`depth > maxSearchKeyDepth` at the head of `parseSearchKey`, `depth + 1` for the elements of a list and the
+operands of NOT / OR, `0` from `FromParser` -/
+def searchDepthShapeKnown : Bool :=
+  Facts.searchDepthCheck == "if depth > maxSearchKeyDepth { return nil, p.MakeError(…) }"
+  && Facts.searchDepthCalls ==
+      ["parseSearchKey -> parseSearchKeyList(depth)", "parseSearchKey -> handleSearchKey(depth)",
+       "parseSearchKeyList -> parseSearchKey(depth + 1)", "parseSearchKeyList -> parseSearchKey(depth + 1)",
+       "handleSearchKey -> parseSearchKey(depth + 1)", "handleSearchKey -> parseSearchKey(depth + 1)",
+       "handleSearchKey -> parseSearchKey(depth + 1)", "FromParser -> handleSearchKey(0)",
+       "FromParser -> handleSearchKey(0)", "FromParser -> parseSearchKey(0)", "FromParser -> parseSearchKey(0)"]
+
+/-- number of nesting levels `parseSearchKey` accepts: depths `0 … maxSearchKeyDepth`, i.e. `maxSearchKeyDepth + 1`
+(/repo c30e930; regenerated from the source). An unknown constant or shape gives 0: every search key is
+refused, which the `parse` / `parsebad` correspondences then show. -/
+def searchBudget : Nat :=
+  match Facts.searchMaxDepth with
+  | some n => if searchDepthShapeKnown then n + 1 else 0
+  | none => 0
+
+/-- `parseSearchKey(p, depth)`: the first argument is the number of nesting levels still allowed
+(`maxSearchKeyDepth + 1 - depth`): at 0 the Go code returns `MakeError("search keys are nested too deeply")`
+(before /repo c30e930 there was no limit, #18). The second argument is the loop fuel. -/
 def parseSearchKey : Nat → Nat → P SearchKey
-  | 0, _ => outOfFuel
+  | 0, _ => makeError
   | d + 1, fuel => do
     if (← matchesTy .lparen) then parseSearchKeyList (parseSearchKey d fuel) fuel
     else if (← check .digit) || (← check .asterisk) then
@@ -528,7 +550,7 @@ def searchFirst (fuel : Nat) : P (BStr × List SearchKey) := do
     if byteToLower c == 99 then
       if byteToLower (← curVal) == 99 then
         consume .char
-        let k ← handleSearchKey (parseSearchKey fuel fuel) (kw "cc") fuel
+        let k ← handleSearchKey (parseSearchKey (searchBudget - 1) fuel) (kw "cc") fuel
         pure (([] : BStr), [k])
       else do
         consumeBytesFold (kw "HARSET")
@@ -537,17 +559,17 @@ def searchFirst (fuel : Nat) : P (BStr × List SearchKey) := do
         pure (e, [])
     else do
       let r ← collectWhile (· == .char) fuel
-      let k ← handleSearchKey (parseSearchKey fuel fuel) (lowerBytes (c :: r)) fuel
+      let k ← handleSearchKey (parseSearchKey (searchBudget - 1) fuel) (lowerBytes (c :: r)) fuel
       pure (([] : BStr), [k])
   else do
-    let k ← parseSearchKey fuel fuel
+    let k ← parseSearchKey searchBudget fuel
     pure (([] : BStr), [k])
 
 /-- search.go `SearchCommandParser.FromParser` -/
 def parseSearch (fuel : Nat) : P Cmd := do
   consume .sp
   let (charset, first) ← searchFirst fuel
-  let more ← sepLoop .sp (parseSearchKey fuel fuel) fuel
+  let more ← sepLoop .sp (parseSearchKey searchBudget fuel) fuel
   let keys := first ++ more
   if keys.isEmpty then makeError
   else pure (.search charset keys)
